@@ -1,5 +1,6 @@
 /- Line-protocol driver for the encoder model (used by C02, C04, C05, C06, C09). -/
 import Logg.Model.Encoder
+import Logg.Model.Layout
 import Logg.Model.IsPrint
 import Logg.Bridge.Registry
 
@@ -87,6 +88,24 @@ def step (reg : Registry) (toks : List String) : String :=
       | some out => toHex out
       | none => "out-of-domain"
     | _, _, _, _, _, _, _, _, _ => "bad-op"
+  | _ => "bad-op"
+
+/-- the same tokens as `step`: the colored record as it reads without escape sequences (Model/Layout) -/
+def layoutStep (reg : Registry) (toks : List String) : String :=
+  match toks with
+  | _ :: lvl :: ts :: name :: msg :: caller :: tagw :: minw :: attrs =>
+    let caller? : Option (Option (Bytes × Int × Bytes × Bytes)) :=
+      if caller == "-" then some none
+      else match caller.splitOn ":" with
+        | [a, l, fn, fs] => do let a ← ofHex a; let l ← l.toInt?; let fn ← ofHex fn; let fs ← ofHex fs; pure (some (a, l, fn, fs))
+        | _ => none
+    match lvl.toInt?, ofHex ts, ofHex name, ofHex msg, caller?, tagw.toInt?, minw.toNat?, parseAttrs (attrs.length + 2) attrs with
+    | some lvl, some ts, some name, some msg, some caller, some tagw, some minw, some (as, []) =>
+      if lvl == Lv.always && isBlank msg then "out-of-domain"
+      else match reg.shortTag lvl tagw with
+        | some tag => toHex (colorLayout isPrintTable minw 32 tag { lvl := lvl, ts := ts, name := name, msg := msg, attrs := as, caller := caller })
+        | none => "out-of-domain"
+    | _, _, _, _, _, _, _, _ => "bad-op"
   | _ => "bad-op"
 
 end Logg.Drive.Enc
